@@ -660,62 +660,122 @@ pub open spec fn handshake_ok(evs: Seq<SEv>, req_opts: Seq<TransferOption>, read
     }
 }
 
-/// SPECIFICATION (C03, C09, C16): the one transfer an accepted request starts
-pub open spec fn spawn_ok(e: SEv, kind: XferKind, path: Seq<char>, clean: bool, dup: u8, req_opts: Seq<TransferOption>) -> bool {
-    e matches SEv::Spawned { kind: k, path: p, blk, tmo, ws, rep, check, clean: c }
-    && k == kind && p == path && c == clean && rep == dup + 1
-    && blk == settings_of(req_opts).blk && ws == settings_of(req_opts).ws && dur_nanos(tmo) == settings_of(req_opts).tmo_nanos
-    && 8 <= blk <= 65464 && ws >= 1 && 1000000000 <= dur_nanos(tmo) <= 255 * 1000000000
-    && (kind is Send ==> check == (req_opts.len() > 0))
+/// number of handshake datagrams an accepted request is answered with on the transfer socket
+pub open spec fn n_handshake(req_opts: Seq<TransferOption>, read_size: Option<u64>) -> int {
+    if req_opts.len() > 0 || read_size is None { 1 } else { 0 }
 }
 
-/// effects of a request that passed the access checks: the handshake datagram(s) on the transfer socket, then
-/// the spawn -- or, when something failed on the way (socket error, unhonourable option value), a prefix of
-/// that with NO spawn.  Nothing is sent from the listening socket, nothing is routed.
-pub open spec fn accepted_ok(evs: Seq<SEv>, kind: XferKind, path: Seq<char>, clean: bool, dup: u8, req_opts: Seq<TransferOption>, read_size: Option<u64>, ok: bool) -> bool {
-    let n_hs: int = if req_opts.len() > 0 || read_size is None { 1 } else { 0 };
-    &&& evs.len() <= n_hs + 1
-    &&& (evs.len() >= n_hs && n_hs == 1 ==> handshake_ok(evs.subrange(0, 1), req_opts, read_size))
-    &&& (evs.len() < n_hs + 1 ==> (forall|i: int| 0 <= i < evs.len() ==> #[trigger] evs[i] is Sent))
-    &&& (evs.len() == n_hs + 1 ==> spawn_ok(evs[n_hs], kind, path, clean, dup, req_opts) && opts_valid(req_opts))
-    &&& (ok ==> evs.len() == n_hs + 1)
+/// SPECIFICATION (shape of an accepted request's effects): handshake datagram(s) on the transfer socket, then the one
+/// spawn -- or, when something failed on the way, a prefix of that with NO spawn.  Nothing from the listening
+/// socket, nothing routed.
+pub open spec fn accepted_shape(evs: Seq<SEv>, req_opts: Seq<TransferOption>, read_size: Option<u64>, ok: bool) -> bool {
+    let n = n_handshake(req_opts, read_size);
+    &&& evs.len() <= n + 1
+    &&& (forall|i: int| 0 <= i < evs.len() && i < n ==> #[trigger] evs[i] is Sent)
+    &&& (evs.len() == n + 1 ==> evs[n] is Spawned)
+    &&& (ok ==> evs.len() == n + 1)
+}
+
+/// SPECIFICATION (C03): every transfer started for this request works on exactly `dir.join(convert(filename))`,
+/// which is lexically confined to `dir`; an unconfined name is refused with ERROR 2 and starts nothing
+pub open spec fn req_c03(evs: Seq<SEv>, kind: XferKind, dir: Seq<char>, filename: Seq<char>, to: std::net::SocketAddr) -> bool {
+    let path = join_str(dir, convert_spec(filename));
+    &&& (!path_confined(path, dir) ==> refusal(evs, ErrorCode::AccessViolation, to))
+    &&& (forall|i: int| 0 <= i < evs.len() ==> (#[trigger] evs[i] matches SEv::Spawned { kind: k, path: p, .. } ==> k == kind && p == path && path_confined(path, dir)))
+}
+
+/// SPECIFICATION (C06): missing file on a read -> ERROR 1; existing file on a write without overwrite -> ERROR 6;
+/// a refusal is the only effect (no transfer is started)
+pub open spec fn req_c06(evs: Seq<SEv>, kind: XferKind, dir: Seq<char>, overwrite: bool, filename: Seq<char>, to: std::net::SocketAddr) -> bool {
+    let path = join_str(dir, convert_spec(filename));
+    path_confined(path, dir) ==> (match kind {
+        XferKind::Send => !fs_exists(path) ==> refusal(evs, ErrorCode::FileNotFound, to),
+        XferKind::Receive => fs_exists(path) && !overwrite ==> refusal(evs, ErrorCode::FileExists, to),
+    })
+}
+
+/// the request is accepted (passes the C03 / C06 checks)
+pub open spec fn req_accepted(kind: XferKind, dir: Seq<char>, overwrite: bool, filename: Seq<char>) -> bool {
+    let path = join_str(dir, convert_spec(filename));
+    path_confined(path, dir) && (match kind {
+        XferKind::Send => fs_exists(path),
+        XferKind::Receive => !fs_exists(path) || overwrite,
+    })
+}
+
+/// SPECIFICATION (C09): an accepted request is answered with an OACK echoing its options (tsize = true file size on a
+/// read) iff it has at least one; otherwise ACK 0 for a write and nothing for a read; the transfer is started with
+/// exactly the requested values (RFC 1350 defaults otherwise), all within the honourable ranges; a request with a
+/// value the server cannot honour is neither acknowledged nor started
+pub open spec fn req_c09(evs: Seq<SEv>, kind: XferKind, req_opts: Seq<TransferOption>, read_size: Option<u64>, ok: bool) -> bool {
+    let n = n_handshake(req_opts, read_size);
+    &&& accepted_shape(evs, req_opts, read_size, ok)
+    &&& (evs.len() >= n && n == 1 ==> handshake_ok(evs.subrange(0, 1), req_opts, read_size))
     &&& (!opts_valid(req_opts) ==> evs.len() == 0)
+    &&& (forall|i: int| 0 <= i < evs.len() ==> (#[trigger] evs[i] matches SEv::Spawned { blk, tmo, ws, check, .. } ==>
+            blk == settings_of(req_opts).blk && ws == settings_of(req_opts).ws && dur_nanos(tmo) == settings_of(req_opts).tmo_nanos
+            && 8 <= blk <= 65464 && ws >= 1 && 1000000000 <= dur_nanos(tmo) <= 255 * 1000000000
+            && (kind is Send ==> check == (req_opts.len() > 0))))
 }
 
-/// SPECIFICATION of a read request's outcome (C03, C06, C09)
-pub open spec fn rrq_ok(evs: Seq<SEv>, dir: Seq<char>, clean: bool, dup: u8, filename: Seq<char>, req_opts: Seq<TransferOption>, to: std::net::SocketAddr, ok: bool) -> bool {
-    let path = join_str(dir, convert_spec(filename));
-    if !path_confined(path, dir) { refusal(evs, ErrorCode::AccessViolation, to) }
-    else if !fs_exists(path) { refusal(evs, ErrorCode::FileNotFound, to) }
-    else { accepted_ok(evs, XferKind::Send, path, clean, dup, req_opts, Some(fs_len(path)), ok) }
-}
-
-/// SPECIFICATION of a write request's outcome when the server is writable (C03, C06, C09)
-pub open spec fn wrq_ok(evs: Seq<SEv>, dir: Seq<char>, overwrite: bool, clean: bool, dup: u8, filename: Seq<char>, req_opts: Seq<TransferOption>, to: std::net::SocketAddr, ok: bool) -> bool {
-    let path = join_str(dir, convert_spec(filename));
-    if !path_confined(path, dir) { refusal(evs, ErrorCode::AccessViolation, to) }
-    else if fs_exists(path) && !overwrite { refusal(evs, ErrorCode::FileExists, to) }
-    else { accepted_ok(evs, XferKind::Receive, path, clean, dup, req_opts, None, ok) }
+/// SPECIFICATION (C16, C13): a started transfer repeats data-phase datagrams `dup + 1` times and uses the configured clean-on-error policy
+pub open spec fn req_c16(evs: Seq<SEv>, clean: bool, dup: u8) -> bool {
+    forall|i: int| 0 <= i < evs.len() ==> (#[trigger] evs[i] matches SEv::Spawned { rep, clean: c, .. } ==> rep == dup + 1 && c == clean)
 }
 
 pub struct ServerCfg { pub send_dir: Seq<char>, pub recv_dir: Seq<char>, pub read_only: bool, pub overwrite: bool, pub clean: bool, pub dup: u8 }
 
-/// SPECIFICATION of the listener (C05, C06, C12, with C03/C09 through rrq_ok / wrq_ok): everything one received
-/// datagram may cause.  `cur` = the decoded datagram and its source (None: receive error or undecodable),
-/// `known` = the source owns a running single-port transfer, `evs` = the effects.
-pub open spec fn listen_iter_ok(evs: Seq<SEv>, cur: Option<(PktV, std::net::SocketAddr)>, known: bool, c: ServerCfg) -> bool {
+pub open spec fn req_read_size(kind: XferKind, dir: Seq<char>, filename: Seq<char>) -> Option<u64> {
+    match kind { XferKind::Send => Some(fs_len(join_str(dir, convert_spec(filename)))), XferKind::Receive => None }
+}
+
+/// the datagram is a request of this kind (read-only servers do not treat WRQ as a request to handle)
+pub open spec fn cur_request(cur: Option<(PktV, std::net::SocketAddr)>, c: ServerCfg) -> Option<(XferKind, Seq<char>, Seq<char>, Seq<TransferOption>, std::net::SocketAddr)> {
     match cur {
-        None => evs.len() == 0,
-        Some((PktV::Rrq { filename, mode, options }, from)) =>
-            rrq_ok(evs, c.send_dir, c.clean, c.dup, filename, options, from, true) || rrq_ok(evs, c.send_dir, c.clean, c.dup, filename, options, from, false),
-        Some((PktV::Wrq { filename, mode, options }, from)) =>
-            if c.read_only { refusal(evs, ErrorCode::AccessViolation, from) }
-            else { wrq_ok(evs, c.recv_dir, c.overwrite, c.clean, c.dup, filename, options, from, true) || wrq_ok(evs, c.recv_dir, c.overwrite, c.clean, c.dup, filename, options, from, false) },
-        Some((p, from)) =>
-            // forwarded to the transfer owned by its own source endpoint and to nobody else; an endpoint that owns no
-            // transfer (or whose transfer has ended) is answered with ERROR 4
-            (known && evs.len() == 1 && evs[0] == (SEv::Routed { pkt: p, to: from })) || refusal(evs, ErrorCode::IllegalOperation, from),
+        Some((PktV::Rrq { filename, mode, options }, from)) => Some((XferKind::Send, c.send_dir, filename, options, from)),
+        Some((PktV::Wrq { filename, mode, options }, from)) => if c.read_only { None } else { Some((XferKind::Receive, c.recv_dir, filename, options, from)) },
+        _ => None,
     }
+}
+
+/// SPECIFICATION of the listener per received datagram, one predicate per property.
+/// `cur` = the decoded datagram and its source (None: receive error or undecodable), `evs` = its effects.
+pub open spec fn listen_c03(evs: Seq<SEv>, cur: Option<(PktV, std::net::SocketAddr)>, c: ServerCfg) -> bool {
+    match cur_request(cur, c) {
+        Some((kind, dir, filename, options, from)) => req_c03(evs, kind, dir, filename, from),
+        None => forall|i: int| 0 <= i < evs.len() ==> !(#[trigger] evs[i] is Spawned),
+    }
+}
+pub open spec fn listen_c06(evs: Seq<SEv>, cur: Option<(PktV, std::net::SocketAddr)>, c: ServerCfg) -> bool {
+    match cur {
+        Some((PktV::Wrq { .. }, from)) if c.read_only => refusal(evs, ErrorCode::AccessViolation, from),
+        _ => match cur_request(cur, c) {
+            Some((kind, dir, filename, options, from)) => req_c06(evs, kind, dir, c.overwrite, filename, from),
+            None => true,
+        },
+    }
+}
+pub open spec fn listen_c09(evs: Seq<SEv>, cur: Option<(PktV, std::net::SocketAddr)>, c: ServerCfg) -> bool {
+    match cur_request(cur, c) {
+        Some((kind, dir, filename, options, from)) => req_accepted(kind, dir, c.overwrite, filename) ==>
+            req_c09(evs, kind, options, req_read_size(kind, dir, filename), true) || req_c09(evs, kind, options, req_read_size(kind, dir, filename), false),
+        None => forall|i: int| 0 <= i < evs.len() ==> !(#[trigger] evs[i] is Sent),
+    }
+}
+pub open spec fn listen_c16(evs: Seq<SEv>, c: ServerCfg) -> bool { req_c16(evs, c.clean, c.dup) }
+/// C12: a well-formed non-request datagram is forwarded to the transfer owned by its own source endpoint and to nobody
+/// else; an endpoint that owns no transfer (or whose transfer has ended) is answered with ERROR 4
+pub open spec fn listen_c12(evs: Seq<SEv>, cur: Option<(PktV, std::net::SocketAddr)>, known: bool) -> bool {
+    match cur {
+        Some((PktV::Rrq { .. }, from)) => forall|i: int| 0 <= i < evs.len() ==> !(#[trigger] evs[i] is Routed),
+        Some((PktV::Wrq { .. }, from)) => forall|i: int| 0 <= i < evs.len() ==> !(#[trigger] evs[i] is Routed),
+        Some((p, from)) => (known && evs.len() == 1 && evs[0] == (SEv::Routed { pkt: p, to: from })) || refusal(evs, ErrorCode::IllegalOperation, from),
+        None => true,
+    }
+}
+/// C05 / C10: a datagram that cannot be received or decoded has no effect at all
+pub open spec fn listen_c05(evs: Seq<SEv>, cur: Option<(PktV, std::net::SocketAddr)>) -> bool {
+    cur is None ==> evs.len() == 0
 }
 
 /// distance on the wire from block number `bn` forward to `a`
